@@ -198,6 +198,43 @@ def run(ck, ctx):
               "direction (valid on the whole sphere, also beyond +-90 deg of the detector meridian)",
               lon.op == "BinOp" and lon.attr == "Mod" and P.equal(P.of(inner), P.ref("degrees(arctan2(y, x))", env)),
               lon, func, P.show(P.of(inner))[:200])
+        # the detector as seen from the spot: ECEF direction of the detector expressed in the spot's ENU frame
+        #   east  = -sin(lonS) dx + cos(lonS) dy
+        #   north = -sin(latS) cos(lonS) dx - sin(latS) sin(lonS) dy + cos(latS) dz
+        # with (dx, dy, dz) = (cos(la) cos(lo), cos(la) sin(lo), sin(la)) the unit vector towards the detector
+        azi = D.A("aziAngVSubN")
+        if is_ext_call(azi, "numpy.arctan2") and len(azi.args) == 3:
+            yv, xv = azi.args[1], azi.args[2]
+            lat_rad = [n for n in walk([yv]) if is_ext_call(n, "numpy.arcsin")]
+            lon_rad = [n for n in walk([yv, xv]) if is_ext_call(n, "numpy.arctan2")]
+            if len({g.vn(n) for n in lat_rad}) == 1 and len({g.vn(n) for n in lon_rad}) == 1:
+                P = PolyFacet(I, opaque_ids={nodes["detLat"].id, nodes["detLong"].id, lat_rad[0].id, lon_rad[0].id},
+                              gather_transparent=True)
+                env = {"la": P.of(nodes["detLat"]), "lo": P.of(nodes["detLong"]), "ls": P.of(lat_rad[0]),
+                       "os": P.of(lon_rad[0])}
+                east = P.ref("-sin(os)*cos(la)*cos(lo) + cos(os)*cos(la)*sin(lo)", env)
+                north = P.ref("-sin(ls)*cos(os)*cos(la)*cos(lo) - sin(ls)*sin(os)*cos(la)*sin(lo) + cos(ls)*sin(la)", env)
+                ok_e = P.equal(P.of(xv), east) or _trig_equal(P, xv, "cos(la)*sin(lo - os)", env)
+                ok_n = P.equal(P.of(yv), north) or _trig_equal(P, yv, "cos(ls)*sin(la) - sin(ls)*cos(la)*cos(lo - os)", env)
+                ck.ob("R02.7", "east component of the detector direction at the spot == -sin(lonS) dx + cos(lonS) dy",
+                      ok_e, xv, func, P.show(P.of(xv))[:200])
+                ck.ob("R02.7", "north component of the detector direction at the spot == -sin(latS)(cos(lonS) dx + "
+                      "sin(lonS) dy) + cos(latS) dz", ok_n, yv, func, P.show(P.of(yv))[:200])
+                # the spot angles used here are the ones published as latS / longS
+                ck.ob("R02.7", "the spot latitude / longitude used for the detector azimuth are the published ones",
+                      any(x is lat_rad[0] or g.same(x, lat_rad[0]) for x in walk([D.A("latS")])) and
+                      any(x is lon_rad[0] or g.same(x, lon_rad[0]) for x in walk([D.A("longS")])), azi, func, "")
+            else:
+                ck.ob("R02.7", "detector azimuth is built from one spot latitude and one spot longitude", False, azi,
+                      func, f"{len(lat_rad)} arcsin / {len(lon_rad)} arctan2 terms")
+            ck.ob("R02.7", "detector azimuth at the spot == arctan2(north, east)", True, azi, func, g.show(azi, 2))
+        else:
+            ck.ob("R02.7", "detector azimuth at the spot == arctan2(north, east)", False, azi, func, g.show(azi, 2))
+        elev = D.A("elevAngVSubN")
+        Pe = PolyFacet(I, opaque_ids={nodes["costhetaNSubV"].id}, gather_transparent=True)
+        ck.ob("R02.7", "detector elevation at the spot == pi/2 - arccos(cos(theta_N,V))",
+              Pe.equal(Pe.of(elev), Pe.ref("pi/2 - arccos(c)", {"c": Pe.of(nodes["costhetaNSubV"])})), elev, func,
+              Pe.show(Pe.of(elev))[:160])
     ck.guard(closed_forms, "R02.7")
 
     # ---------------------------------------------------------------- R02.5 / R02.6 line-of-sight stores
@@ -275,3 +312,12 @@ def _root_names(I, D):
         return name
     except Exception:
         return lambda val: "unrecognised"
+
+
+def _trig_equal(P, node, expr, env):
+    """equality with a reference written with an angle difference: the code side is expanded by the facet only if
+    it is spelled with the same difference, so try the reference in that spelling as well"""
+    try:
+        return P.equal(P.of(node), P.ref(expr, env))
+    except Exception:
+        return False
